@@ -89,11 +89,21 @@ func (d *downloaderPP) Download(ctx context.Context, fromBlock uint64, downloade
 		default:
 		}
 
-		// Wait for new blocks before processing
-		fromBlock = d.WaitForNewBlocks(ctx, fromBlock)
-		for _, block := range d.GetEventsByBlockRange(ctx, fromBlock, fromBlock) {
+		// Wait until there is at least one block that has not been fetched yet (fromBlock is the first of them)
+		lastSeenBlock := uint64(0)
+		if fromBlock > 0 {
+			lastSeenBlock = fromBlock - 1
+		}
+		toBlock := d.WaitForNewBlocks(ctx, lastSeenBlock)
+		if toBlock < fromBlock {
+			// no new blocks (the context has been canceled)
+			continue
+		}
+		// Fetch the events of every block produced since the previous iteration, not only the newest one
+		for _, block := range d.GetEventsByBlockRange(ctx, fromBlock, toBlock) {
 			downloadedCh <- *block
 		}
+		fromBlock = toBlock + 1
 	}
 }
 
